@@ -614,6 +614,7 @@ type term struct {
 	twin int    // index of the other instance built from the same spec
 	coq  string // "" when not representable as a finite tree
 	hash uint32
+	g    int // 1: built with the second *types.Named node of every type name (types.NewNamed twice on one *TypeName)
 }
 
 func safeIdentical(x, y types.Type) (r bool, p interface{}) {
@@ -672,7 +673,7 @@ func directOracle(u []term, rep *vh.Report, wd *vh.Watchdog) []bitrow {
 				continue
 			}
 			if u[i].hash != u[j].hash {
-				rep.Fail(vh.Failure{Key: pairKey(u[i].s, u[j].s), What: "identical types with different hashes", Input: []*spec{u[i].s, u[j].s}, Got: []uint32{u[i].hash, u[j].hash}})
+				rep.Fail(vh.Failure{Key: pairKey(u[i].s, u[j].s), What: fmt.Sprintf("identical types with different hashes (named-node generation of x: %d, of y: %d; generation 1 = second types.NewNamed node on the same *TypeName)", u[i].g, u[j].g), Input: []*spec{u[i].s, u[j].s}, Got: []uint32{u[i].hash, u[j].hash}})
 			}
 			if !types.Identical(u[i].t, u[j].t) {
 				rep.Fail(vh.Failure{Key: pairKey(u[i].s, u[j].s), What: "typeutil.Identical holds but go/types' Identical (coarser: ignores receivers and embedding structure) does not", Input: []*spec{u[i].s, u[j].s}})
@@ -954,7 +955,7 @@ func main() {
 	u := make([]term, 2*n)
 	for i, s := range specs {
 		u[i] = term{s: s, t: build(s), twin: n + i}
-		u[n+i] = term{s: s, t: buildGen(s, 1), twin: i} // the twin also uses the second Named node of every type name
+		u[n+i] = term{s: s, t: buildGen(s, 1), twin: i, g: 1} // the twin also uses the second Named node of every type name
 	}
 	for i := range u {
 		wd.Beat("hash " + u[i].s.String())
